@@ -79,6 +79,22 @@ def w_filter(case):
 
     f = build_filter(blocks, y, composed)
     exp = expected(y, sim)
+    # the same array object is handed to value, sensitivities and value again:
+    # evaluations must not modify it nor depend on earlier evaluations
+    shared = sim.copy()
+    first = f.compute_log_likelihood(shared)
+    f.compute_sensitivities(shared)
+    again = f.compute_log_likelihood(shared)
+    ntr += 3
+    if not np.array_equal(shared, sim):
+        viol.append({'sub': 'inputs', 'message': 'an evaluation modified the array '
+                     'of simulated measurements passed in (%s)' % lab,
+                     'expected': sim, 'observed': shared,
+                     'behaviour': 'input_mutation'})
+    if not tol.close(again, first):
+        viol.append({'sub': 'repeat', 'message': 'log-likelihood differs when '
+                     'evaluated again on the same array (%s)' % lab,
+                     'expected': first, 'observed': again, 'behaviour': 'repeat'})
     got = f.compute_log_likelihood(sim.copy())
     ntr += 1
     if not tol.close(got, exp):
